@@ -359,22 +359,44 @@ def open_stream(world, kind, data, actor, buf=None, cap=None,
         return h, h
 
 
-def make_reader(cls, stream, late_rewind=False):
+class _ViaIterSections(object):
+    """Iterating through the documented iter_sections() method instead of
+    __iter__ (every other reader construction takes this route)."""
+
+    def __init__(self, rd):
+        self.rd = rd
+
+    def __iter__(self):
+        m = getattr(self.rd, 'iter_sections', None)
+        return m() if m is not None else iter(self.rd)
+
+
+def make_reader(cls, stream, late_rewind=False, world=None):
     """late_rewind: the reader object is created while the stream is
     positioned elsewhere (at its end, as right after filling a buffer) and
     the stream is only then moved to where the DiffX data starts; nothing is
     read before iteration begins, so this must not matter."""
+    # which documented entry point is used alternates per reader *within a
+    # scenario* (a pure function of the scenario, so replays agree)
+    n = getattr(world, 'readers_made', 0) + 1
+
+    if world is not None:
+        world.readers_made = n
+
+    via = n % 2 == 0
+
     if late_rewind and hasattr(stream, 'seek') and hasattr(stream, 'tell'):
         try:
             start = stream.tell()
             stream.seek(0, 2)
             rd = cls(stream)
             stream.seek(start)
-            return rd
+            return _ViaIterSections(rd) if via else rd
         except (OSError, ValueError):
             pass
 
-    return cls(stream)
+    rd = cls(stream)
+    return _ViaIterSections(rd) if via else rd
 
 
 class ReaderActor(Actor):
@@ -416,7 +438,8 @@ class ReaderActor(Actor):
                 buf=self.spec.get('buf'), prefix=self.spec.get('prefix', 0))
             cls = sized_reader_cls(L, self.spec.get('block_size'))
             self.it = iter(make_reader(cls, self.stream,
-                                       bool(self.spec.get('late_rewind'))))
+                                       bool(self.spec.get('late_rewind')),
+                                       world))
             return
 
         try:
@@ -456,7 +479,7 @@ def read_all(world, data, block_size=None, stream='sim', buf=None,
     exc = None
 
     try:
-        for rec in make_reader(cls, st, late_rewind):
+        for rec in make_reader(cls, st, late_rewind, world):
             recs.append(rec)
     except SimEventCap:
         end = 'cap'
